@@ -266,6 +266,10 @@ def delegate_rules(ctx):
         pe.errflow_calls(ctx, R + '/Function/errors', b, pes, 'payload partial_evaluate')
         # no success exit bypasses the payload's kernel: assuming self.function holds variant V, every path to an Ok-exit
         # passes V's partial_evaluate (a "constant fast path" in front of / inside the match would skip it)
+        # the delegating level has no error of its own: every Err-exit lies behind a payload's partial_evaluate (an unset
+        # oneof / a constant is the zero / constant function: success with the empty set, as for evaluate)
+        own = pe.walk(b, [0], avoid={c.bb for c in pes})[0] & b.err_exits()
+        ctx.check(bool(pes) and not own, R + '/Function/no-own-error', 'T-ERRFLOW', b.name, 'Function::partial_evaluate can fail without any payload kernel failing (e.g. on an unset or constant function)', b.site(min(own)) if own else b.site())
         fad = ctx.F.adt('v1::function::Function')
         names = [v['name'] for v in fad['variants']] if fad else []
         for V, c in sorted(got.items()):
@@ -299,6 +303,8 @@ def delegate_rules(ctx):
                 ctx.check(pe.before_every_ok(b, {c.bb}), R + '/RemovedConstraint/no-bypass', 'T-MUSTCALL', b.name, 'an Ok-exit is reachable without partially evaluating the constraint', b.site(c.bb))
             else:
                 pe.must_pass_or_none(ctx, R + '/Constraint/no-bypass', b, c, 'v1::Constraint', 'function', 'partially evaluating the function')
+                own = pe.walk(b, [0], avoid={c.bb})[0] & b.err_exits()
+                ctx.check(not own, R + '/Constraint/no-own-error', 'T-ERRFLOW', b.name, 'Constraint::partial_evaluate can fail without its function failing (a constraint without function is the zero function)', b.site())
         if ty.endswith('RemovedConstraint'):
             # a removed constraint without constraint is an error: `.context(..)?` == `.ok_or_else(..)?` == `match { None => bail!() }` == let-else
             n, bad = pe.none_is_error(ctx, b, 'v1::RemovedConstraint', 'constraint')
@@ -391,4 +397,4 @@ def instance_rules(ctx):
 def check(ctx):
     linear_rules(ctx); quadratic_rules(ctx); polynomial_rules(ctx); delegate_rules(ctx); instance_rules(ctx)
     pe.unmark(ctx)
-    ctx.floor('C03.linear', 10); ctx.floor('C03.quadratic', 22); ctx.floor('C03.polynomial', 18); ctx.floor('C03.delegate', 15); ctx.floor('C03.instance', 42)
+    ctx.floor('C03.linear', 10); ctx.floor('C03.quadratic', 22); ctx.floor('C03.polynomial', 18); ctx.floor('C03.delegate', 17); ctx.floor('C03.instance', 42)
